@@ -1,11 +1,11 @@
 #!/bin/bash
 # usage: round2.sh C01 C04 ...  — confirm round-2 seeds and run the property's check against each
-for i in "$@"; do
-  out=/tmp/seed2-$i-out
+R=$1; shift; for i in "$@"; do
+  out=/tmp/seed$R-$i-out
   [ -f $out/meta.json ] || { echo "$i: no deliverable yet"; continue; }
-  if [ ! -d /verif/seeded/$i-r2 ]; then
+  if [ ! -d /verif/seeded/$i-r$R ]; then
     ls $out/*stub*.go >/dev/null 2>&1 || { f=$(find $out -name '*stub*.go' | head -1); [ -n "$f" ] && cp $f $out/login_pam_stub.go; }
-    /verif/tools/confirmseed.sh $i $out $i-r2 2>&1 | grep -E "^(RESULT|CONFIRMED)"
+    /verif/tools/confirmseed.sh $i $out $i-r$R 2>&1 | grep -E "^(RESULT|CONFIRMED)"
   fi
   echo "--- check $i against seed2:"
   /verif/tools/tryseed.sh $out/patch.diff $i 2>&1 | head -4
